@@ -3,6 +3,8 @@ package c13
 import (
 	"bytes"
 	"fmt"
+	"io"
+	"net"
 	"os"
 	"strings"
 	"testing"
@@ -366,7 +368,31 @@ type writerCase struct {
 	Impl      string   `json:"implementation"`
 	Ops       []string `json:"ops"`
 	FailAfter int      `json:"fail_after"`
+	ReadFrom  int      `json:"read_from_ops,omitempty"`
 	nontriv   bool
+}
+
+// plainConn hides the scripted connection's ReadFrom, as a tls.Conn has none: standard.Conn.ReadFrom then copies
+// through its own output nodes (the path every streamed body takes on a TLS server)
+type plainConn struct{ net.Conn }
+
+// pieceReader hands out its content in reads of at most max bytes
+type pieceReader struct {
+	b   []byte
+	max int
+}
+
+func (r *pieceReader) Read(p []byte) (int, error) {
+	if len(r.b) == 0 {
+		return 0, io.EOF
+	}
+	n := len(p)
+	if n > r.max {
+		n = r.max
+	}
+	n = copy(p[:n], r.b)
+	r.b = r.b[n:]
+	return n, nil
 }
 
 func runWriter(t *rapid.T, rec *ev.Recorder) {
@@ -379,7 +405,12 @@ func runWriter(t *rapid.T, rec *ev.Recorder) {
 	// two implementations of the same writer contract: the standard transport's connection and the
 	// generic network.NewWriter (used for hijacked/extended writers and by clients of other transports)
 	var conn network.Writer
-	stdConn := standard.NewConnForVerif(sc, 4096)
+	var under net.Conn = sc
+	noReaderFrom := rapid.Bool().Draw(t, "underlyingConnWithoutReaderFrom")
+	if noReaderFrom {
+		under = plainConn{sc}
+	}
+	stdConn := standard.NewConnForVerif(under, 4096)
 	impl := "standard.Conn"
 	if rapid.IntRange(0, 2).Draw(t, "implementation") == 0 {
 		impl = "network.NewWriter"
@@ -409,8 +440,16 @@ func runWriter(t *rapid.T, rec *ev.Recorder) {
 		pos += k
 		return b
 	}
+	looseHi := 0
+	loose := false // after ReadFrom: everything before it must be out, the copied bytes may still be buffered
 	verify := func(step int, desc string) {
 		out := sc.Output()
+		if loose && !failed {
+			if len(out) < flushed || len(out) > looseHi || !bytes.HasPrefix(expect, out) {
+				t.Fatalf("after step %d %s: peer has %d bytes; want at least the %d written before and a prefix of the %d written (first diff %d)", step, desc, len(out), flushed, len(expect), firstDiff(out, expect))
+			}
+			return
+		}
 		if failed {
 			if !bytes.HasPrefix(expect, out) {
 				t.Fatalf("after write error at step %d %s: peer received %d bytes that are not a prefix of what was written (first diff %d)", step, desc, len(out), firstDiff(out, expect))
@@ -423,9 +462,39 @@ func runWriter(t *rapid.T, rec *ev.Recorder) {
 	}
 
 	for step := 0; step < steps && !failed; step++ {
-		op := rapid.IntRange(0, 9).Draw(t, "op")
+		op := rapid.IntRange(0, 10).Draw(t, "op")
 		var desc string
 		switch op {
+		case 10: // ReadFrom: write what a reader delivers (how streamed bodies are written); flushes first
+			if impl != "standard.Conn" {
+				desc = "noop"
+				break
+			}
+			k := rapid.SampledFrom([]int{0, 1, 100, 4095, 4096, 4097, 8192, 16384, 16385, 40000, 102400}).Draw(t, "readFromSize")
+			max := rapid.SampledFrom([]int{1 << 20, 4096, 1000, 7}).Draw(t, "readFromPiece")
+			if k > 20000 && max == 7 {
+				max = 1000
+			}
+			desc = fmt.Sprintf("ReadFrom(%d bytes, reads of <=%d)", k, max)
+			c := content(k)
+			before := len(expect)
+			expect = append(expect, c...)
+			m, err := stdConn.(io.ReaderFrom).ReadFrom(&pieceReader{b: append([]byte(nil), c...), max: max})
+			if err != nil {
+				if failAfter < 0 {
+					t.Fatalf("step %d %s: n=%d err=%v", step, desc, m, err)
+				}
+				failed = true
+			} else {
+				if int(m) != k {
+					t.Fatalf("step %d %s: copied %d bytes without error", step, desc, m)
+				}
+				flushed = before
+				loose, looseHi = true, len(expect)
+				keep = nil
+				sawMalloc, sawZC = false, false
+				wc.ReadFrom++
+			}
 		case 0, 1, 2: // Malloc + fill
 			k := rapid.SampledFrom([]int{0, 1, 2, 100, 1000, 4095, 4096, 4097, 8191, 8192, 8193, 20000, 70000}).Draw(t, "mallocSize")
 			if rapid.Bool().Draw(t, "smallRandom") {
@@ -474,6 +543,7 @@ func runWriter(t *rapid.T, rec *ev.Recorder) {
 					t.Fatalf("step %d Flush returned nil although the peer refuses bytes after %d and %d were written", step, failAfter, len(expect))
 				}
 				flushed = len(expect)
+				loose = false
 				if sawMalloc && sawZC {
 					wc.nontriv = true
 				}
@@ -525,6 +595,7 @@ func runWriter(t *rapid.T, rec *ev.Recorder) {
 				}
 				expect = append(expect, c...)
 				flushed = len(expect)
+				loose = false
 				keep = nil
 				sawMalloc, sawZC = false, false
 			}
@@ -540,6 +611,7 @@ func runWriter(t *rapid.T, rec *ev.Recorder) {
 			failed = true
 		} else {
 			flushed = len(expect)
+			loose = false
 		}
 		verify(steps, "final Flush")
 	}
@@ -548,7 +620,14 @@ func runWriter(t *rapid.T, rec *ev.Recorder) {
 	if failAfter >= 0 {
 		cls = "writer-with-write-error"
 	}
-	rec.Case(wc.nontriv, ev.HashString(impl, fmt.Sprint(failAfter), strings.Join(wc.Ops, ",")), cls, "impl-"+impl)
+	clss := []string{cls, "impl-" + impl}
+	if wc.ReadFrom > 0 {
+		clss = append(clss, "read-from")
+		if noReaderFrom {
+			clss = append(clss, "read-from-through-output-nodes")
+		}
+	}
+	rec.Case(wc.nontriv, ev.HashString(impl, fmt.Sprint(failAfter, noReaderFrom), strings.Join(wc.Ops, ",")), clss...)
 	if wc.nontriv && rec.WantSample() {
 		s := *wc
 		if len(s.Ops) > 40 {
